@@ -1,0 +1,7 @@
+//go:build !verif
+
+package gcsemu
+
+// verifYield marks a point at which the verification harness (/verif, build tag "verif") may
+// hold a request; without the tag it does nothing.
+func verifYield(point string) {}
